@@ -38,6 +38,7 @@ class Module(object):
         self.relpath = os.path.relpath(path, repo.root)
         self.classes, self.funcs, self.assigns, self.imports = {}, {}, {}, {}
         self.toplevel = []
+        self.rebound = set()
         for parent in ast.walk(self.tree):
             for child in ast.iter_child_nodes(parent):
                 child._parent = parent
@@ -56,12 +57,48 @@ class Module(object):
             elif isinstance(st, ast.Import):
                 for a in st.names:
                     self.imports[a.asname or a.name.split('.')[0]] = (a.name, None)
+            elif isinstance(st, ast.AnnAssign) and isinstance(st.target, ast.Name) and st.value is not None:
+                plain = ast.copy_location(ast.Assign(targets=[st.target], value=st.value), st)
+                self.assigns[st.target.id] = plain
+                continue
+            if isinstance(st, ast.Expr) and isinstance(st.value, ast.Constant):
+                continue
+            if isinstance(st, ast.If) and ast.unparse(st.test).replace('"', "'") == "__name__ == '__main__'":
+                continue
+            if isinstance(st, (ast.ClassDef, ast.FunctionDef, ast.Import, ast.ImportFrom)) or \
+                    (isinstance(st, ast.Assign) and all(_target_names(t) and not _has_store_to_item(t) for t in st.targets)):
+                continue
+            # everything else runs when the module is imported (stores into module level tables, calls that install
+            # attributes, loops, conditional definitions): executed once by the interpreter before the first use of the module
+            self.toplevel.append(st)
+        # a name bound at module level by statements of different kinds (def f .. ; f = wrap(f)): python keeps the last
+        # binding, the lazy resolution of this model would keep the first - refuse instead of guessing
+        seen = {}
+        for st in self.tree.body:
+            names = []
+            if isinstance(st, (ast.ClassDef, ast.FunctionDef)):
+                names = [st.name]
+            elif isinstance(st, ast.Assign):
+                names = [nm for t in st.targets for nm in _target_names(t)]
+            for nm in names:
+                kind = type(st).__name__
+                if nm in seen and (seen[nm] != 'Assign' or kind != 'Assign'):
+                    self.rebound.add(nm)
+                seen[nm] = kind
 
     def where(self, node):
         return '%s:%d' % (self.relpath, getattr(node, 'lineno', 0))
 
     def __repr__(self):
         return '<Module %s>' % self.name
+
+
+def _has_store_to_item(t):
+    if isinstance(t, (ast.Subscript, ast.Attribute)):
+        return True
+    if isinstance(t, (ast.Tuple, ast.List)):
+        return any(_has_store_to_item(e) for e in t.elts)
+    return False
 
 
 def _target_names(t):
@@ -269,6 +306,8 @@ class Repo(object):
     def resolve_global(self, module, name, _depth=0):
         """-> ('class', ClassInfo) | ('func', Module, FunctionDef) | ('assign', Module, Assign) |
         ('external', modname, name) | None"""
+        if name in module.rebound:
+            raise AnalysisError('%s.%s is bound more than once at module level (by a definition and an assignment)' % (module.name, name))
         if name in module.classes:
             return ('class', module.classes[name])
         if name in module.funcs:
